@@ -1,4 +1,5 @@
 import Bgpfu.Lemmas.Fetch
+import Bgpfu.Lemmas.FetchTotal
 /-!
 # C16 — exactly the active, annotated, default-reject policy statements are managed
 
@@ -232,5 +233,123 @@ theorem other_content_never_selected (parseExpr unescape : String → Option Str
 `then`, or a `then` holding anything but `<reject/>` makes a statement "other content" -/
 theorem other_item_not_defaultReject (s : Stmt) (h : s.body.any BodyItem.isOther = true) : s.defaultReject = false := by
   simp [Stmt.defaultReject, h]
+
+end Xml
+
+namespace Xml
+
+/-- **Totality** (every event list, grammar document or not, either variant): the reader model never
+runs out of fuel — `evs.length + 1` loop iterations always suffice. -/
+theorem readCandidates_total (c : FCfg) (parseExpr unescape : String → Option String) (dataRaw : String) (evs : List Ev) :
+    readCandidates c parseExpr unescape dataRaw evs ≠ .error .fuel :=
+  policiesLoop_total _ (readCandidate_good c parseExpr unescape) _ _ _ _ (Nat.lt_succ_self _)
+
+/-! ### non-vacuity: a configuration mixing all statement kinds -/
+
+def jcmdNs : Attr := { key := "xmlns:jcmd", ns := .bound "http://www.w3.org/2000/xmlns/", lname := "jcmd", value := some JCMD }
+def jcmdComment (v : String) : Attr := { key := "jcmd:comment", ns := .bound JCMD, lname := "comment", value := some v }
+def jcmdActive (v : String) : Attr := { key := "jcmd:active", ns := .bound JCMD, lname := "active", value := some v }
+def junosChanged : Attr := { key := "junos:changed-seconds", ns := .unknown, lname := "changed-seconds", value := some "1" }
+
+def nameItem (s : String) : BodyItem := .name "name" [] s [.text s]
+def rejectItem : ThenItem := .empty (xnmTag "reject" "reject" [] none)
+def acceptItem : ThenItem := .empty (xnmTag "accept" "accept" [] none)
+def thenReject : BodyItem := .then_ "then" [] none [rejectItem]
+def termItem : BodyItem :=
+  .elem (xnmTag "term" "term" [] none)
+    [.start (xnmTag "name" "name" [] (some "t")), .text "t", .end "name",
+     .start (xnmTag "then" "then" [] none), .empty (xnmTag "accept" "accept" [] none), .end "then"]
+
+def exStmt (attrs : List Attr) (body : List BodyItem) : PoItem :=
+  .stmt { raw := "policy-statement", attrs := attrs, span := none, body := body }
+
+/-- the parser and unescape oracles of the examples -/
+def exParse (s : String) : Option String :=
+  if s == " AS-FOO" then some "AS-FOO" else if s == " AS-BAR & { 10.0.0.0/8^+ }" then some "AS-BAR AND {10.0.0.0/8^+}" else none
+def exUnescape (s : String) : Option String := if s == "a&amp;b" then some "a&b" else some s
+
+def exItems : List PoItem :=
+  [ -- managed; duplicate xmlns:jcmd, unrelated attribute, comment inside
+    exStmt [jcmdNs, junosChanged, jcmdNs, jcmdComment "/* bgpfu-fltr: AS-FOO */"] [nameItem "fltr-foo", .comment, thenReject],
+    .comment,
+    -- inactive, attribute before the annotation
+    exStmt [jcmdNs, jcmdActive "false", jcmdNs, jcmdComment "/* bgpfu-fltr: AS-FOO */"] [nameItem "off-1", thenReject],
+    -- inactive, attribute after the annotation; arbitrary body
+    exStmt [jcmdNs, jcmdComment "/* bgpfu-fltr: AS-FOO */", jcmdActive "false"] [nameItem "off-2", termItem],
+    -- not annotated
+    exStmt [] [nameItem "plain", termItem, .then_ "then" [] none [acceptItem]],
+    -- a comment that is not an annotation
+    exStmt [jcmdNs, jcmdComment "/* managed by hand */"] [nameItem "hand", thenReject],
+    -- annotated, but with a term: other content
+    exStmt [jcmdNs, jcmdComment "/* bgpfu-fltr: AS-FOO */"] [nameItem "mixed", termItem, thenReject],
+    -- annotated, `then accept`
+    exStmt [jcmdNs, jcmdComment "/* bgpfu-fltr: AS-FOO */"] [nameItem "acc", .then_ "then" [] none [acceptItem]],
+    -- annotated, two `then`
+    exStmt [jcmdNs, jcmdComment "/* bgpfu-fltr: AS-FOO */"] [nameItem "two", .then_ "then" [] none [], thenReject],
+    -- escaped characters in name and expression, `/** … **/` decoration, active="true", last annotation wins
+    exStmt [jcmdActive "true", jcmdComment "bgpfu-fltr: AS-OLD", jcmdNs, jcmdComment "/** bgpfu-fltr: AS-BAR & { 10.0.0.0/8^+ } **/"]
+      [thenReject, nameItem "a&amp;b"],
+    -- malformed expression: managed, not evaluable
+    exStmt [jcmdNs, jcmdComment "bgpfu-fltr: AS-FOO AND"] [nameItem "broken", thenReject] ]
+
+def exCfg (items : List PoItem) : Config :=
+  { confRaw := "configuration", confAttrs := [], confSpan := none, poRaw := "policy-options", poAttrs := [],
+    poSpan := none, items := items, c1 := 1, c4 := 2 }
+
+example : (exCfg exItems).WF exUnescape := by decide
+
+/-- the repaired reader on the mixed configuration: exactly the three managed statements -/
+example : readCandidates .fixed exParse exUnescape "data" ((exCfg exItems).render "data" ++ [.end "rpc-reply", .eof])
+    = .ok [("fltr-foo", .parsed "AS-FOO"), ("a&b", .parsed "AS-BAR AND {10.0.0.0/8^+}"), ("broken", .malformed "AS-FOO AND")] := by
+  decide
+
+example : select exParse exUnescape (exCfg exItems)
+    = .ok [("fltr-foo", .parsed "AS-FOO"), ("a&b", .parsed "AS-BAR AND {10.0.0.0/8^+}"), ("broken", .malformed "AS-FOO AND")] := by
+  decide
+
+/-- the restricted theorem is not vacuous either: a configuration satisfying `NoOtherContent` with
+managed, inactive and unannotated statements -/
+def exPlainItems : List PoItem := [exItems[0], exItems[2], exItems[3], exItems[4], exItems[9], exItems[10]]
+example : (exCfg exPlainItems).WF exUnescape ∧ NoOtherContent (exCfg exPlainItems) := by
+  unfold NoOtherContent; decide
+example : readCandidates .pinned exParse exUnescape "data" ((exCfg exPlainItems).render "data")
+    = .ok [("fltr-foo", .parsed "AS-FOO"), ("a&b", .parsed "AS-BAR AND {10.0.0.0/8^+}"), ("broken", .malformed "AS-FOO AND")] := by
+  decide
+
+/-- two managed statements of the same name: error -/
+example : readCandidates .fixed exParse exUnescape "data" ((exCfg [exItems[0], exItems[0]]).render "data") = .error .other := by
+  decide
+/-- … but a managed and an unmanaged one of the same name: fine -/
+example : readCandidates .fixed exParse exUnescape "data"
+    ((exCfg [exItems[0], exStmt [] [nameItem "fltr-foo", thenReject]]).render "data") = .ok [("fltr-foo", .parsed "AS-FOO")] := by
+  decide
+
+/-! ### counter-examples for the code as it is in /repo (`.pinned`) -/
+
+/-- **Deviation 1 (`other-content-fails-read`).** One annotated statement that also holds a term
+makes the whole read fail: the well-formed managed statement next to it is lost, i.e. no policy is
+updated at all. The full statement for `.pinned` is false. -/
+theorem other_content_fails_read_cex :
+    ∃ (cfg : Config), cfg.WF exUnescape ∧
+      select exParse exUnescape cfg = .ok [("fltr-foo", .parsed "AS-FOO")] ∧
+      readCandidates .pinned exParse exUnescape "data" (cfg.render "data") = .error .unexpected ∧
+      readCandidates .fixed exParse exUnescape "data" (cfg.render "data") = .ok [("fltr-foo", .parsed "AS-FOO")] :=
+  ⟨exCfg [exItems[0], exItems[6]], by decide, by decide, by decide, by decide⟩
+
+/-- the same with `then accept` instead of a term -/
+theorem then_accept_fails_read_cex :
+    ∃ (cfg : Config), cfg.WF exUnescape ∧
+      select exParse exUnescape cfg = .ok [("fltr-foo", .parsed "AS-FOO")] ∧
+      readCandidates .pinned exParse exUnescape "data" (cfg.render "data") = .error .unexpected :=
+  ⟨exCfg [exItems[0], exItems[7]], by decide, by decide, by decide⟩
+
+/-- **Deviation 2 (`extra-then-selected`).** `<then></then><then><reject/></then>`: the guard of the
+`then` arm is `!reject_policy`, so a second `then` is read when the first one held no reject; the
+statement is selected although it does not consist of one default reject action. -/
+theorem extra_then_selected_cex :
+    ∃ (cfg : Config), cfg.WF exUnescape ∧
+      select exParse exUnescape cfg = .ok [] ∧
+      readCandidates .pinned exParse exUnescape "data" (cfg.render "data") = .ok [("two", .parsed "AS-FOO")] :=
+  ⟨exCfg [exItems[8]], by decide, by decide, by decide⟩
 
 end Xml
